@@ -126,8 +126,8 @@ func sizesOf() [][2]int64 {
 	return [][2]int64{{0, lat.Max}, {0, 0}, {1, 1}, {0, 1}, {1, 2}, {2, 5}, {1, lat.Max}, {3, 3}, {0, 10}, {5, lat.Max}, {lat.Max, lat.Max}}
 }
 
-func rcp(k string) *Recipe { return &Recipe{K: k, Bool: -1} }
-func rInt(lo, hi int64) *Recipe { return &Recipe{K: "Integer", Lo: lo, Hi: hi} }
+func rcp(k string) *Recipe           { return &Recipe{K: k, Bool: -1} }
+func rInt(lo, hi int64) *Recipe      { return &Recipe{K: "Integer", Lo: lo, Hi: hi} }
 func rW(k string, t *Recipe) *Recipe { return &Recipe{K: k, Sub: []*Recipe{t}} }
 func rArr(e *Recipe, lo, hi int64) *Recipe {
 	return &Recipe{K: "Array", Sub: []*Recipe{e}, Lo: lo, Hi: hi}
@@ -139,7 +139,7 @@ func rTup(ts ...*Recipe) *Recipe { return &Recipe{K: "Tuple", Sub: ts} }
 func rTupSz(lo, hi int64, ts ...*Recipe) *Recipe {
 	return &Recipe{K: "Tuple", Sub: ts, HasSize: true, Lo: lo, Hi: hi}
 }
-func rVar(ts ...*Recipe) *Recipe { return &Recipe{K: "Variant", Sub: ts} }
+func rVar(ts ...*Recipe) *Recipe          { return &Recipe{K: "Variant", Sub: ts} }
 func rEnum(ci bool, vs ...string) *Recipe { return &Recipe{K: "Enum", CI: ci, Strs: vs} }
 func rStruct(names []string, kinds []int, ts ...*Recipe) *Recipe {
 	return &Recipe{K: "Struct", Names: names, KeyKind: kinds, Sub: ts}
@@ -172,6 +172,9 @@ func cornerTypes() []*Recipe {
 			rTupSz(sz[0], sz[1]), rTupSz(sz[0], sz[1], intT), rTupSz(sz[0], sz[1], intT, strT), rTupSz(sz[0], sz[1], intT, strT, anyT),
 			&Recipe{K: "Callable", Sub: []*Recipe{strT}, HasSize: true, Lo: sz[0], Hi: sz[1]})
 	}
+	// a String size without lower bound prints with default (fix d2e056c)
+	out = append(out, &Recipe{K: "StringSz", Lo: lat.Min, Hi: 3}, &Recipe{K: "StringSz", Lo: lat.Min, Hi: lat.Max}, &Recipe{K: "StringSz", Lo: -5, Hi: 5},
+		&Recipe{K: "StringSz", Lo: lat.Min, Hi: 0}, rW("Optional", &Recipe{K: "StringSz", Lo: lat.Min, Hi: 7}))
 	out = append(out, rTup(), rTup(intT), rTup(intT, strT), rTup(rInt(0, 5)), rTup(rInt(0, 5), rInt(1, 1)), rTup(rTup()), rTup(rTupSz(0, 0)),
 		rTupSz(0, 0, rInt(1, 2)), rTup(rArr(anyT, 0, lat.Max)), rTup(rTup(intT), rTup(strT, intT)))
 	// strings inside types
